@@ -31,6 +31,12 @@ def unwrapOpt {α : Type} : Option α → Res α
 /-- `Ord::max` on `usize` -/
 def ordMax (a b : Nat) : Nat := if a ≤ b then b else a
 
+/-- the two `usize` fields of `RawList` the generated guards read -/
+structure RawView where
+  len : Nat
+  capacity : Nat
+  deriving DecidableEq, Repr, Inhabited
+
 /-- which mutex a `lock()` call in a two-list operation goes to -/
 inductive LockRef
   | self_
